@@ -31,7 +31,7 @@ add("KF-diagonal-nonsquare", ["C01", "C04", "C05", "C07", "C09"],
     {"prim": "diagonal", "args": {"0": {"__re__": "[rc][234]n.*"}}, "symptom": ["wrong_shape"]},
     case("diagonal", [A(2, 4)], {"axis1": -1, "axis2": -2}))
 
-add("KF-kron-nd", ["C01", "C04", "C09", "C15"],
+add("KF-kron-nd", ["C01", "C04", "C07", "C09", "C15"],
     "np.kron with an operand of 3 or more dimensions: grad_kron reshapes as if both operands were at most 2-D and silently returns a wrong cotangent",
     {"prim": "kron", "args": {"__any_item__": {"__re__": "[rc][345].*"}}, "symptom": ["wrong_value", "not_adjoint", "wrong_shape", "modes_disagree"]},
     case("kron", [A(2, 2, 2), A(2, 2, 2)], argnum=0))
@@ -106,6 +106,7 @@ fixed("FX-make-diagonal-dtype", ["C05", "C09"], "b957bf9", "make_diagonal alloca
 fixed("FX-solve-broadcast-a", ["C01", "C05", "C09"], "efdfd7a", "np.linalg.solve(a, b) with a single matrix a broadcast against a batch of right-hand sides: the vector/matrix heuristic of grad_solve misfired and the cotangent for a had the wrong shape", case("solve", [W(2), A(3, 2, 3)], ns="linalg", argnum=0, tags=["bcast_a"]))
 fixed("FX-solve-vec-b-batched-a", ["C01", "C09"], "d6c80b9", "np.linalg.solve(a, b) with a stack of matrices a and one vector b: the adjoint solve read the (batch, M) cotangent as a single matrix (silently wrong when batch == M, an exception otherwise)", case("solve", [onp.stack([W(2), W(2).T + 0.3]), A(2)], ns="linalg", argnum=1, tags=["vec_b_batched_a"]))
 fixed("FX-astype-int-passes-gradient", ["C14"], "74f8075", "x.astype(int) / astype(bool) (integer-valued, piecewise constant) let the cotangent through unchanged in reverse mode: d/dx sum(x*x.astype(int)) returned x.astype(int)+x instead of x.astype(int)", {"kind": "composition", "q": "astype_int", "mode": "rev"})
+fixed("FX-eigh-zero-traced-cotangent", ["C07"], "b9b4a66", "second derivatives through np.linalg.eigh at a point where the eigenvector cotangent is exactly zero but varies with the input (squared residual about the evaluation point): grad_eigh skipped the eigenvector term (anp.any on a traced value) and the Hessian lost J'J of the eigenvectors", dict(case("eigh", [SPD(3) + onp.diag([0.0, 2.0, 5.0])], ns="linalg", tags=["values+vectors"], gauge="eigvec"), outer="quad0"))
 fixed("FX-where-jvp-broadcast", ["C05", "C02"], "423a953", "forward-mode np.where returned a tangent with the branch's shape/kind instead of the output's", case("where", [cc, A(3), A(2, 2, 3)], argnum=1), witness_mode="fwd")
 
 out = {"_comment": "Known findings: genuine defects of HIPS/autograd that are recorded rather than repaired (status open) and defects repaired by a 'fix:' commit (status fixed; fixed entries suppress nothing - their witnesses are re-run on every check and a failing one is an ordinary VIOLATION). `match` is a conjunction over fields of the case signature (lists = any of; {__re__}: regex; {__has__}: list membership); never a seed, hash or random value. Read-only at run time.", "findings": F}
